@@ -6,7 +6,7 @@ shape of the frozen mappings, default-overrides-required) -- NOT the acceptance 
 from __future__ import annotations
 
 import ast
-from typing import List, Optional, Tuple
+from typing import List, Optional, Set, Tuple
 
 from ..cfg import CFG, Node, cfg_of, no_exc
 from ..facts import FuncFacts
@@ -89,14 +89,27 @@ def verdicts(chk: Check) -> None:
     chk.floor('DOM-verdict-not-dropped', n, 9)
     # user validators: their verdict becomes the error
     pv = prog.func('ports.Port.validate')
+    def alias_closure(f, start: str) -> Set[str]:
+        """Names the value of ``start`` is copied to by plain ``b = a`` assignments (transitively)."""
+        al = {start}
+        changed = True
+        while changed:
+            changed = False
+            for n_ in ast.walk(f.node):
+                if isinstance(n_, ast.Assign) and len(n_.targets) == 1 and isinstance(n_.targets[0], ast.Name) and isinstance(n_.value, ast.Name) \
+                        and n_.value.id in al and n_.targets[0].id not in al:
+                    al.add(n_.targets[0].id)
+                    changed = True
+        return al
+
     for c in [x for x in calls_in_func(pv) if norm(x.func) == 'self.validator']:
         ff = chk.ctx.facts.analyse(pv)
         node = ff.cfg.nodes_containing(c)[0]
         ok = node.kind == 'stmt' and isinstance(node.ast, ast.Assign)
         if ok:
-            v = norm(node.ast.targets[0])
-            ok = any(isinstance(s, ast.If) and norm(s.test) == f'{v} is not None' and any(isinstance(x, ast.Assign) and norm(x.targets[0]) == 'validation_error' and norm(x.value) == v for x in s.body)
-                     for s in ast.walk(pv.node))
+            al = alias_closure(pv, norm(node.ast.targets[0]))
+            ok = any(isinstance(s_, ast.If) and any(norm(s_.test) == f'{v} is not None' for v in al) and any(
+                isinstance(x, ast.Assign) and norm(x.targets[0]) == 'validation_error' and norm(x.value) in al for x in s_.body) for s_ in ast.walk(pv.node))
         chk.ob('DOM-verdict-not-dropped', pv, ok, 'a port validator\'s message becomes the validation error', node=c, kind='validator-verdict')
     rets = [r for r in ast.walk(pv.node) if isinstance(r, ast.Return) and r.value is not None and not (isinstance(r.value, ast.Constant))]
     ok = len(rets) == 1 and isinstance(rets[0].value, ast.Call) and last_name(rets[0].value) == 'PortValidationError' and norm(rets[0].value.args[0]) == 'validation_error'
@@ -113,7 +126,10 @@ def verdicts(chk: Check) -> None:
     cfg = cfg_of(oc)
     raises = [n for n in cfg.nodes if n.kind == 'raisestmt' and n.ast.exc is not None and norm(n.ast.exc).startswith('ValueError(')]
     ff = chk.ctx.facts.analyse(oc)
-    ok = len(raises) == 1 and ('notnone', 'result') in ff.at(raises[0])
+    val0 = [c for c in calls_in_func(oc, 'validate')]
+    vnode = ff.cfg.nodes_containing(val0[0])[0] if val0 else None
+    vvar = norm(vnode.ast.targets[0]) if vnode is not None and isinstance(vnode.ast, ast.Assign) else 'result'
+    ok = len(raises) == 1 and (('notnone', vvar) in ff.at(raises[0]) or ('T', vvar) in ff.at(raises[0])) and vvar in norm(raises[0].ast.exc)
     chk.ob('DOM-verdict-not-dropped', oc, ok, 'a validation error of the inputs aborts construction with ValueError', kind='construction-rejected')
     val = [c for c in calls_in_func(oc, 'validate')]
     ok = len(val) == 1 and norm(val[0].func) == 'self.spec().inputs.validate' and [norm(a) for a in val[0].args] == ['self._parsed_inputs']
@@ -146,12 +162,26 @@ def callers_data(chk: Check) -> None:
     if isinstance(arg, ast.Name):
         vals = [n.value for n in ast.walk(oc.node) if isinstance(n, ast.Assign) and norm(n.targets[0]) == arg.id]
         src = vals[0] if len(vals) == 1 else None
-    rc = oc.nested.get('recursively_copy_dictionaries')
+    def is_recursive_rebuild(g) -> bool:
+        """``g(value)``: a new dict at every nesting level, built by calling itself on the sub-values."""
+        if g is None or isinstance(g.node, ast.Lambda):
+            return False
+        comp = [n_ for n_ in ast.walk(g.node) if isinstance(n_, ast.DictComp)]
+        rec = len(comp) == 1 and isinstance(comp[0].value, ast.Call) and isinstance(comp[0].value.func, ast.Name) and comp[0].value.func.id == g.name
+        guard = any(isinstance(n_, ast.If) and norm(n_.test).startswith('isinstance(') and 'dict' in norm(n_.test) for n_ in ast.walk(g.node))
+        return rec and guard
+
+    rc = None
     ok = False
     if src is not None:
-        # every sub-expression that denotes the raw inputs must sit inside a call of the recursive rebuild
+        # every sub-expression that denotes the raw inputs must sit inside a call of a recursive dictionary rebuild
         refs = [n for n in ast.walk(src) if isinstance(n, ast.Attribute) and norm(n) in ('self._raw_inputs', 'self.raw_inputs')]
-        rebuilt = [c for c in ast.walk(src) if isinstance(c, ast.Call) and isinstance(c.func, ast.Name) and rc is not None and c.func.id == rc.name]
+        rebuilt = []
+        for c in [c for c in ast.walk(src) if isinstance(c, ast.Call)]:
+            t = chk.ctx.calls.resolve_call(oc, c)
+            if len(t.funcs) == 1 and is_recursive_rebuild(t.funcs[0]):
+                rebuilt.append(c)
+                rc = t.funcs[0]
         inside = lambda r: any(any(x is r for x in ast.walk(a)) for c in rebuilt for a in c.args)
         tests = []
         for n in ast.walk(src):
@@ -160,13 +190,8 @@ def callers_data(chk: Check) -> None:
         ok = bool(rebuilt) and all(inside(r) or any(r is t for t in tests) for r in refs)
     chk.ob('PROV-raw-inputs-untouched', oc, ok, 'the mapping handed to pre_process (which fills in defaults IN PLACE) is a recursive rebuild of the raw inputs, never the raw '
            'inputs or the caller\'s dictionary themselves', node=pp[0], kind='prebuilt-copy')
-    if rc is not None:
-        comp = [n for n in ast.walk(rc.node) if isinstance(n, ast.DictComp)]
-        ok = len(comp) == 1 and isinstance(comp[0].value, ast.Call) and isinstance(comp[0].value.func, ast.Name) and comp[0].value.func.id == rc.name
-        guard = any(isinstance(n, ast.If) and 'isinstance(value, dict)' in norm(n.test) for n in ast.walk(rc.node))
-        chk.ob('PROV-raw-inputs-untouched', rc, ok and guard, 'the rebuild creates a new dict at every nesting level (values themselves are shared)', kind='recursive-rebuild')
-    else:
-        chk.ob('PROV-raw-inputs-untouched', oc, False, 'the recursive dictionary rebuild is gone', kind='recursive-rebuild')
+    chk.ob('PROV-raw-inputs-untouched', rc if rc is not None else oc, rc is not None, 'the rebuild creates a new dict at every nesting level (values themselves are shared)',
+           kind='recursive-rebuild')
     stored = [n for n in ast.walk(oc.node) if isinstance(n, ast.Assign) and norm(n.targets[0]) == 'self._parsed_inputs']
     chk.ob('PROV-raw-inputs-untouched', oc, len(stored) == 1 and stored[0].value is pp[0], 'the parsed inputs are what pre_process returns', kind='parsed-from-pre-process')
     init = prog.func('processes.Process.__init__')
@@ -269,11 +294,13 @@ def defaults(chk: Check) -> None:
     ff = chk.ctx.facts.analyse(pp)
     cfg = ff.cfg
     calls = [n for n in cfg.nodes if any(isinstance(c.func, ast.Name) and c.func.id == 'default' for c in _calls(n))]
-    ok = len(calls) == 1 and any(a == ('T', 'callable(default)') for a in ff.at(calls[0]))
+    dcalls = [c for c in calls_in_func(pp) if isinstance(c.func, ast.Name) and c.func.id == 'default']
+    ok = len(dcalls) == 1 and all(('T', 'callable(default)') in fs for _, fs in ff.site_facts(dcalls[0]))
     chk.ob('PROV-defaults', pp, ok, 'a callable default is evaluated (once) when it is used', kind='callable-evaluated')
     vp = pp.params[1]
     use = [n for n in cfg.nodes if any(norm(c.func).endswith('.has_default') for c in _calls(n))]
-    ok = bool(use) and all(any(a[0] == 'T' and a[1] == f'name not in {vp}' for a in ff.at(u)) for u in use)
+    hd = [c for c in calls_in_func(pp) if norm(c.func).endswith('.has_default')]
+    ok = bool(hd) and all(('F', f'name in {vp}') in fs for c in hd for _, fs in ff.site_facts(c))
     chk.ob('PROV-defaults', pp, ok, 'defaults are considered only for ports the caller did not supply', kind='only-when-missing')
     skip = [n for n in cfg.nodes if n.kind == 'test' and 'populate_defaults' in norm(n.ast.test)]
     ok = False
